@@ -12,7 +12,7 @@ META = {
                    "the own party; (R6.5) the only other message that carries bits of the share table, `output wire shares`, is filled only "
                    "at slots indexed by Circuit.output_regs (the mask share of a register that is not an output - in particular of an own "
                    "input wire - is never sent); (R6.6) in the secret-creating functions a vector allocated with a constant placeholder and filled from "
-                   "random data through zip has a zip partner whose length is computed from the vector's own length (zip truncates silently). "
+                   "random data through zip has a zip partner whose length is computed from the vector's own length (zip truncates silently); (R6.7) no privately seeded generator is cloned and (R4.c) no random draw is replicated into all entries of a vector; entropy may be obtained through helpers and through struct fields that only ever store private randomness. "
                    "Distributional statements (balance, uniqueness across runs) are not decided.",
     "assumptions": ["rand::random / ThreadRng / Scalar::random are cryptographically secure", "the property's statistical clauses (N>=200 runs) need execution"],
 }
@@ -25,6 +25,9 @@ def run(ctx, res):
     r6.rule_own_share_home(S, res)
     rule_output_slots(ctx, S, res)
     r6.rule_placeholder_overwritten(S, res)
+    import r3
+    r3.rule_replicated_draw(S, res)
+    r6.rule_generator_clone(S, res)
 
 
 class _Renamed:
